@@ -2,8 +2,9 @@
    Only statements, `exact`, Print Assumptions.  V: any value type with decidable zero; operands: arbitrary
    well-formed coordinate lists; "stored order" = any Permutation of the entry list. *)
 From Coq Require Import List Arith Bool ZArith Permutation.
-From PV Require Import Base.Index Np.NpZ Np.Array Model.Sparse Model.Harness Model.C03Ops Model.C03AsIs Model.C06Ops
-                       Proofs.C03Lemmas Proofs.C03Proofs Proofs.C03AsIsProofs Proofs.C06Proofs.
+From PV Require Import Base.Index Base.Perm Np.NpZ Np.Array Model.Sparse Model.Harness Model.C03Ops Model.C03Gen Model.C06Ops
+                       Model.C07Ops Model.C01Conv Model.C04Model
+                       Proofs.C03Lemmas Proofs.C03Proofs Proofs.C03GenProofs Proofs.C06Proofs Proofs.C06Other.
 Import ListNotations.
 
 Section C06.
@@ -53,6 +54,41 @@ Theorem C06_order_indep_unary : forall (op : sparse V -> sparse V) (g : V -> V),
     canon (op A) = canon (op A') /\ Permutation (entries (op A)) (entries (op A')).
 Proof. exact (order_indep1 v0 isz isz_spec). Qed.
 
+(* ---- sparse-returning operations proved correct under other properties (C07 permute/reshape/squeeze, C01 to_sptenmat /
+        to_sptensor, C04 every __setitem__/__getitem__ path): results well-formed, same result for every stored order ---- *)
+Theorem C06_ops_permute : forall (S S' : sparse V) p, wf S -> wf S' -> sshape S' = sshape S ->
+  Permutation (entries S) (entries S') -> is_perm p (length (sshape S)) ->
+  exists R R', permute_sp S p = Some R /\ permute_sp S' p = Some R' /\ same_result v0 isz R R'.
+Proof. exact (indep_permute v0 isz isz_spec). Qed.
+
+Theorem C06_ops_reshape : forall (S S' : sparse V) s', wf S -> wf S' -> sshape S' = sshape S ->
+  Permutation (entries S) (entries S') -> size s' = size (sshape S) ->
+  exists R R', reshape_sp_all S s' = Some R /\ reshape_sp_all S' s' = Some R' /\ same_result v0 isz R R'.
+Proof. exact (indep_reshape v0 isz isz_spec). Qed.
+
+Theorem C06_ops_squeeze : forall (S S' : sparse V), wf S -> wf S' -> sshape S' = sshape S ->
+  Permutation (entries S) (entries S') ->
+  match squeeze_sp v0 S, squeeze_sp v0 S' with
+  | SqT R, SqT R' => same_result v0 isz R R'
+  | SqScalar v, SqScalar v' => v = v'
+  | _, _ => False
+  end.
+Proof. exact (indep_squeeze v0 isz isz_spec). Qed.
+
+Theorem C06_ops_sptenmat : forall (S S' : sparse V) r c, wf S -> wf S' -> sshape S' = sshape S ->
+  Permutation (entries S) (entries S') -> is_perm (r ++ c) (length (sshape S)) ->
+  exists M M', to_sptenmat S r c = Some M /\ to_sptenmat S' r c = Some M' /\
+    wf (stm_sp M) /\ wf (stm_sp M') /\ length (stm_subs M) = nnz S /\
+    (forall i, inb (sshape S) i = true -> den_sptenmat v0 M i = den_sptenmat v0 M' i) /\
+    sptenmat_to_sptensor M = S /\ sptenmat_to_sptensor M' = S'.
+Proof. exact (indep_to_sptenmat v0 isz). Qed.
+
+Theorem C06_ops_setitem : forall (S S' : sparse V) (o : op V) S1 out S1' out', wf S -> wf S' -> sshape S' = sshape S ->
+  Permutation (entries S) (entries S') ->
+  step_sparse v0 isz S o = Some (S1, out) -> step_sparse v0 isz S' o = Some (S1', out') ->
+  same_result v0 isz S1 S1' /\ out = out'.
+Proof. exact (indep_step v0 isz isz_spec). Qed.
+
 (* instances: the modelled operators (result well-formed + same result for every stored order of each operand) *)
 Variables (one : V) (vadd vmul : V -> V -> V) (vopp : V -> V).
 Hypothesis one_nz : one <> v0.
@@ -90,14 +126,19 @@ Proof.
         (conj (indep_mul_dense v0 isz isz_spec vmul vmul_0_l)
         (conj (indep_cmp_scalar v0 isz isz_spec one one_nz) (indep_cmp_dense v0 isz isz_spec one one_nz)))))))).
 Qed.
-End C06.
 
-(* the code as it is (finding A-06): sptensor.__mul__ (sparse, sparse) over the generated tt_intersect_rows gives
-   different arrays for two stored orders of the same operand *)
-Theorem C06_mul_asis_order_dependent :
-  Permutation (entries wA) (entries wA') /\
-  exists R R', impl_mul_asis wA wB = Ok R /\ impl_mul_asis wA' wB = Ok R' /\ zden_sp R [0; 0] <> zden_sp R' [0; 0].
-Proof. exact mul_asis_order_dependent. Qed.
+(* the repaired sparse*sparse, sparse==sparse and the sparse/sparse comparisons, transliterated over the row helpers
+   GENERATED from pyttb_utils.py: for operands of order >= 1 they succeed, return well-formed tensors and the same result
+   for every stored order of each operand (for *: in a value ring without zero divisors) *)
+Theorem C06_ops_generated :
+  ((forall x y, x <> v0 -> y <> v0 -> vmul x y <> v0) -> indep2_res v0 isz (@has_modes V) (impl_mul_gen v0 vmul)) /\
+  (forall veqb, (forall a b, veqb a b = true <-> a = b) -> indep2_res v0 isz (@has_modes V) (impl_eq_gen v0 one veqb)) /\
+  (forall cmp, indep2_res v0 isz (@has_modes V) (impl_cmp_gen v0 one cmp)).
+Proof.
+  exact (conj (indep_mul_gen v0 isz isz_spec vmul vmul_0_l vmul_0_r)
+        (conj (indep_eq_gen v0 isz isz_spec one one_nz) (indep_cmp_gen v0 isz isz_spec one one_nz))).
+Qed.
+End C06.
 
 Print Assumptions C06_canon_unique.
 Print Assumptions C06_den_perm.
@@ -107,7 +148,12 @@ Print Assumptions C06_order_indep_binary.
 Print Assumptions C06_order_indep_unary.
 Print Assumptions C06_ops_binary.
 Print Assumptions C06_ops_unary.
-Print Assumptions C06_mul_asis_order_dependent.
+Print Assumptions C06_ops_generated.
+Print Assumptions C06_ops_permute.
+Print Assumptions C06_ops_reshape.
+Print Assumptions C06_ops_squeeze.
+Print Assumptions C06_ops_sptenmat.
+Print Assumptions C06_ops_setitem.
 
 (* non-vacuity: the same 2x3 tensor stored in two orders; + and the comparison <= give the same canonical result *)
 Local Open Scope Z_scope.
